@@ -16,9 +16,15 @@ def self_field(t, name, tag=None):
 
 
 def node_field(t, name):
-    """nodes[IDX].<name>  -> IDX term, else None"""
-    if M.is_field(t, name) and (t[3] or '').endswith('::Node') and isinstance(t[1], tuple) and t[1][0] == 'index' and M.is_field(t[1][1], 'nodes'):
-        return t[1][2]
+    """nodes[IDX].<name>  -> IDX term, else None. The item of `nodes.iter().enumerate()` / `iter_mut().enumerate()` counts as
+    nodes[its index]: ((next as Some).0).1.<name> -> ((next as Some).0).0"""
+    if M.is_field(t, name) and (t[3] or '').endswith('::Node') and isinstance(t[1], tuple):
+        base = t[1]
+        if base[0] == 'index' and M.is_field(base[1], 'nodes'):
+            return base[2]
+        if M.is_field(base, '1') and M.contains(base[1], lambda x: M.is_call(x, 'enumerate')) and \
+                M.contains(base[1], lambda x: M.is_call(x, 'iter', 'iter_mut') and M.is_field(x[2][0], 'nodes')) and M.contains(base[1], lambda x: M.is_call(x, 'Iterator::next')):
+            return M.simplify_field(base[1], '0', None)
     return None
 
 
@@ -56,7 +62,8 @@ def append_sites(ctx, tag):
 def r_append(ctx, rule='R02.4'):
     for tag, adt in DIAGRAMS:
         sites = append_sites(ctx, tag)
-        if not ctx.floor(rule, tag, None, len(sites), 3, 'edge append sites (2 in _branch_on, 1 in _relax)'):
+        fns = set(b_.fn_name for (b_, _, _) in sites)
+        if not ctx.floor(rule, tag, None, len(fns & {'_branch_on', '_relax'}), 2, 'functions appending edges (_branch_on and _relax)'):
             continue
         for n, (b, bb, E) in enumerate(sites):
             ctx.analysed_bodies.add(b.name)
@@ -170,9 +177,13 @@ def r_branch_on(ctx, rule='R12.a'):
             good = M.is_param(e['from'], index=1) and M.is_param(e['decision'], index=2) and e['cost'] == cost
             ctx.check(good, rule, '%s/edge#%d-fields' % (tag, n), b, b.loc(bb), 'edge = (from_id, decision, cost returned by transition_cost)',
                       'edge pushed by _branch_on is %s' % M.show(E))
+            def target_ok(to):
+                return (isinstance(to, tuple) and to[0] == 'aggr' and M.is_call(id0(to), 'len') and self_field(id0(to)[2][0], 'nodes')) or \
+                    (M.is_call(to, 'get') and M.contains(to, lambda x: M.is_call(x, 'entry'))) or \
+                    (M.is_call(to, 'insert', 'or_insert', 'or_insert_with') and M.contains(to, lambda x: M.is_call(x, 'entry')))
+            tos = [x for leaf in M.leaves(e['to']) for x in var_def_terms(b, leaf)]
+            t_ok = bool(tos) and all(target_ok(x) for x in tos)
             to = e['to']
-            t_ok = (isinstance(to, tuple) and to[0] == 'aggr' and M.is_call(id0(to), 'len') and self_field(id0(to)[2][0], 'nodes')) or \
-                (M.is_call(to, 'get') and M.contains(to, lambda x: M.is_call(x, 'entry')))
             ctx.check(t_ok, rule, '%s/edge#%d-target' % (tag, n), b, b.loc(bb), 'edge target = node just created or node stored under the state key', 'edge target is %s' % M.show(to))
         # node creation
         npush = [(bb, t) for (bb, t) in b.calls_to('push') if self_field(b.origin.operand(t['args'][0], b.term_point(bb)), 'nodes')]
@@ -390,7 +401,7 @@ def r_squash(ctx):
         for (kind, calls, variant) in (('restrict', rs, 'Restricted'), ('relax', rx, 'Relaxed')):
             for (bb, t) in calls:
                 p = b.term_point(bb)
-                ok, cut, bad = M.guarded(b, [p], lambda atoms, lit: any(a[0] == 'in' and comp_type(a[1]) and a[2] == frozenset([variant]) for a in atoms))
+                ok, cut, bad = M.guarded(b, [p], lambda atoms, lit: any(enum_is(a, comp_type, variant) for a in atoms))
                 ctx.check(ok, 'R07.1', '%s/%s-only-in-%s' % (tag, kind, variant), b, b.loc(bb), '_%s is reachable only in a %s compilation (Exact never squashes, Restricted never merges)' % (kind, variant),
                           '_%s can run in a compilation whose type is not %s' % (kind, variant))
                 # width guard
@@ -419,7 +430,7 @@ def r_squash(ctx):
         # C13: the squash is not only guarded, it is mandatory: the only exemptions are len <= w and (relaxed) fewer than two layers
         for (kind, calls, variant) in (('restrict', rs, 'Restricted'), ('relax', rx, 'Relaxed')):
             arm = [(tb, 0) for bbk in b.live_blocks() if b.term(bbk)['k'] == 'switch' for (tb, lab) in b.succ(bbk)
-                   if (lambda lit: lit and lit[0] == 'in' and comp_type(lit[1]) and lit[2] == frozenset([variant]))(M.edge_literal(b, bbk, lab))]
+                   if any(enum_is(a_, comp_type, variant) for a_ in M.lit_atoms(M.edge_literal(b, bbk, lab)))]
             def exempt(atoms, lit, kind=kind):
                 for a in atoms:
                     if M.cmp_matches(a, lambda t: M.is_call(t, 'len') and M.is_param(t[2][0], index=2), is_w, '<='):
@@ -724,7 +735,7 @@ def _relax_length(ctx, tag, b, mid):
     # recycled path: keeps exactly the re-used node alive again
     sdf = [(bb, t) for (bb, t) in b.calls_to('set_deleted') if M.is_const(b.origin.operand(t['args'][1], b.term_point(bb)), False)]
     for (bb, t) in sdf:
-        ok2, cut, bad = M.guarded(b, [b.term_point(bb)], lambda atoms, lit: any(a[0] == 'T' and M.is_call(a[1], 'is_some') for a in atoms))
+        ok2, cut, bad = M.guarded(b, [b.term_point(bb)], lambda atoms, lit: any(opt_is(a, lambda x: M.contains(x, lambda y: M.is_call(y, 'find', 'position')), 'Some') for a in atoms))
         ctx.check(ok2, 'R13.b', tag + '/undelete-only-when-recycled', b, b.loc(bb), 'a deleted flag is cleared only on the recycled path', 'set_deleted(false) outside the recycled path')
 
 
@@ -748,7 +759,10 @@ def _relaxed_or_exact(atoms, lit):
 
 def _best_known_ok(b, t):
     """best_known = max(input.best_lb, value of the best exact node) (or input.best_lb when there is none)"""
-    for d in var_def_terms(b, t):
+    alts = []
+    for leaf in M.leaves(t):
+        alts.extend(var_def_terms(b, leaf))
+    for d in alts:
         if is_input_lb(d):
             continue
         if isinstance(d, tuple) and d[0] == 'max' and len(d[1]) == 2 and any(is_input_lb(x) for x in d[1]) and \
@@ -791,7 +805,7 @@ def r_thresholds(ctx):
                 nf = lambda x, f: node_field(x, f) == idx
                 if inner is None:
                     form = None
-                elif inner[0] in ('var', 'max') or is_input_lb(inner):
+                elif inner[0] in ('var', 'max', 'ite') or is_input_lb(inner):
                     if _best_known_ok(body, inner):
                         form = 'best_known (exact terminal)'
                         ok, cut, bad = M.guarded(body, [pt], lambda atoms, lit: any(a[0] == 'T' and (self_field(a[1], 'is_exact') or (M.is_call(a[1], 'is_exact') and node_field(a[1][2][0], 'flags') == idx)) for a in atoms))
@@ -800,7 +814,7 @@ def r_thresholds(ctx):
                 elif inner[0] == 'sub' and _best_known_ok(body, inner[1]) and nf(inner[2], 'rub'):
                     form = 'best_known - rub'
                     tot = lambda t: isinstance(t, tuple) and t[0] == 'add' and len(t[1]) == 2 and any(nf(x, 'rub') for x in t[1]) and any(nf(x, 'value_top') for x in t[1])
-                    bk = lambda t: _best_known_ok(body, t) and (is_input_lb(t) or t[0] in ('var', 'max'))
+                    bk = lambda t: _best_known_ok(body, t) and (is_input_lb(t) or t[0] in ('var', 'max', 'ite'))
                     ok, cut, bad = M.guarded(body, [pt], lambda atoms, lit: any(M.cmp_matches(a, tot, bk, '<=') and _rel(a, tot) == frozenset('<=') for a in atoms))
                     ctx.check(ok, 'R09.5', tag + '/theta-rub-guard(E8)', body, body.loc(*pt), 'theta = best_known - rub exactly when value_top + rub <= best_known (the equality case must not fall through to the dangling-node case)',
                               'the rub-threshold case is not guarded by `value_top + rub <= best_known` (<= only)')
@@ -808,7 +822,7 @@ def r_thresholds(ctx):
                         any(x[0] == 'sub' and _best_known_ok(body, x[1]) and nf(x[2], 'value_bot') for x in inner[1] if isinstance(x, tuple)):
                     form = 'min(theta, best_known - value_bot)'
                     tot = lambda t: isinstance(t, tuple) and t[0] == 'add' and len(t[1]) == 2 and any(nf(x, 'value_bot') for x in t[1]) and any(nf(x, 'value_top') for x in t[1])
-                    bk = lambda t: _best_known_ok(body, t) and (is_input_lb(t) or t[0] in ('var', 'max'))
+                    bk = lambda t: _best_known_ok(body, t) and (is_input_lb(t) or t[0] in ('var', 'max', 'ite'))
                     ok, cut, bad = M.guarded(body, [pt], lambda atoms, lit: any(M.cmp_matches(a, tot, bk, '<=') and '<' in _rel(a, tot) for a in atoms))
                     ok2, _, _ = M.guarded(body, [pt], lambda atoms, lit: any(a[0] == 'T' and M.is_call(a[1], 'is_cutset') and node_field(a[1][2][0], 'flags') == idx for a in atoms))
                     ctx.check(ok and ok2, 'R09.5', tag + '/theta-locb-guard(E9)', body, body.loc(*pt), 'theta = min(theta, best_known - value_bot) only for cut-set nodes with value_top + value_bot <=|< best_known',
@@ -956,14 +970,21 @@ def r_filters(ctx):
             ctx.check(ok, 'R10.6', tag + '/only-exact-nodes', c, c.loc(bb), 'only exact nodes are submitted to the dominance checker', 'an inexact (merged) node can be submitted to / pruned by the dominance checker')
             res = c.origin.call(t, c.term_point(bb))
             falses = [(b2, i) for (b2, i, s) in c.assigns(lambda s: s['place']['l'] == 0 and not s['place']['p'] and s['rv']['k'] == 'use' and s['rv']['op'].get('const', {}).get('bool') is False)]
-            ok, cut, bad = M.guarded(c, falses, lambda atoms, lit: any(a_[0] == 'T' and M.is_field(a_[1], 'dominated', 'DominanceCheckResult') and a_[1][1] == res for a_ in atoms))
-            ctx.check(bool(falses) and ok, 'R10.6', tag + '/drop-only-dominated', c, c.loc(*falses[0]) if falses else c.loc(bb), 'a node is dropped only when the checker answered dominated',
+            is_dom = lambda atoms: any(a_[0] == 'T' and M.is_field(a_[1], 'dominated', 'DominanceCheckResult') and a_[1][1] == res for a_ in atoms)
+            ok = returns_value_only_if(c, False, is_dom)
+            ctx.check(ok, 'R10.6', tag + '/drop-only-dominated', c, c.loc(*falses[0]) if falses else c.loc(bb), 'a node is dropped (closure answers false) only when the checker answered dominated',
                       'the dominance filter can drop a node the checker did not report dominated')
             tw = [(pt, d, v) for (pt, d, v, s) in writes(c) if node_field(d, 'theta') is not None]
             good = bool(tw) and all(node_field(d, 'theta') == idx and M.is_field(v, 'threshold', 'DominanceCheckResult') and v[1] == res for (pt, d, v) in tw)
             if good:
-                r1 = c.reach([(0, 0)], avoid=[pt for (pt, d, v) in tw])
-                good = not any(p in r1 for p in falses)
+                # every path that may answer false (drop) has written theta
+                twp = [pt for (pt, d, v) in tw]
+                for (atoms_, rt_, blocks_, end_) in bool_fn_paths(c):
+                    if M.is_const(rt_, True):
+                        continue
+                    dominated_path = M.is_const(rt_, False) or any(a_[0] == 'T' and M.is_field(a_[1], 'dominated', 'DominanceCheckResult') for a_ in atoms_)
+                    if dominated_path and not any(pt_[0] in blocks_ for pt_ in twp):
+                        good = False
             for rid in ('R09.5', 'R10.6'):
                 ctx.check(good, rid, tag + '/theta-write/dominance threshold', c, c.loc(*tw[0][0]) if tw else c.loc(bb), 'a dominated node receives theta := the checker\'s threshold (otherwise it is taken for a dangling exact node and gets theta = MAX)',
                           'a dominated node does not receive theta := threshold returned by the checker')
@@ -1019,9 +1040,10 @@ def r_cutset(ctx):
                 if M.is_const(v, 0):
                     ctx.ok('R08.5', tag + '/value_bot-init', body, body.loc(*pt), 'terminal nodes start with value_bot = 0')
                     continue
-                good = isinstance(v, tuple) and v[0] == 'max' and len(v[1]) == 2 and any(node_field(x, 'value_bot') == idx for x in v[1])
+                cands = guarded_update(body, pt, d, v, 'max')
+                good = len(cands) == 1
                 if good:
-                    other = [x for x in v[1] if node_field(x, 'value_bot') != idx][0]
+                    other = cands[0]
                     good = isinstance(other, tuple) and other[0] == 'add' and any(M.is_field(y, 'cost', 'Edge') for y in other[1]) and any(node_field(y, 'value_bot') is not None for y in other[1])
                     good = good and M.is_field(idx, '0') and M.is_field(idx[1], 'from', 'Edge')
                     if good:
@@ -1216,7 +1238,7 @@ def r_best_nodes(ctx):
                 ctx.check(ok and self_field(v, 'best_node'), 'R02.6', tag + '/exact-best-path-promotion', fe, fe.loc(*pt), 'best_exact_node := best_node only when has_exact_best_path',
                           'best_exact_node is overwritten with %s without has_exact_best_path being asserted' % M.show(v))
             if self_field(d, 'has_exact_best_path'):
-                defs = var_def_terms(fe, v) if v[0] == 'var' else [v]
+                defs = [x for leaf in M.leaves(v) for x in var_def_terms(fe, leaf)]
                 calls = [x for x in defs if M.is_call(x, '_has_exact_best_path')]
                 good = bool(calls) and all(M.is_const(x, False) or M.is_call(x, '_has_exact_best_path') for x in defs) and self_field(calls[0][2][1], 'best_node')
                 cp = call_points(fe, '_has_exact_best_path')
@@ -1492,8 +1514,8 @@ def r_pooled_layers(ctx):
     imt = c.origin.call(t, c.term_point(bb))
     impacted = lambda atoms, lit: any(a_[0] == 'T' and a_[1] == imt for a_ in atoms)
     trues = [(b2, i) for (b2, i, s) in c.assigns(lambda s: s['place']['l'] == 0 and not s['place']['p'] and s['rv']['k'] == 'use' and s['rv']['op'].get('const', {}).get('bool') is True)]
-    ok, cut, bad = M.guarded(c, trues, impacted)
-    ctx.check(bool(trues) and ok, 'R15.1', 'expand-only-impacted', c, c.loc(*trues[0]) if trues else c.loc(bb), 'a pool node joins the layer only when the variable impacts its state',
+    ok = returns_value_only_if(c, True, lambda atoms: any(a_[0] == 'T' and a_[1] == imt for a_ in atoms))
+    ctx.check(ok, 'R15.1', 'expand-only-impacted', c, c.loc(*trues[0]) if trues else c.loc(bb), 'a pool node joins the layer (closure answers true) only when the variable impacts its state',
               'a node can join the layer although is_impacted_by answered false')
     # the removal list is filled on the impacted branch only, and the pool loses exactly the members of that list
     rp = [(b2, t2) for (b2, t2) in c.calls_to('push')]
@@ -1507,14 +1529,19 @@ def r_pooled_layers(ctx):
     ctx.check(good, 'R15.1', 'unimpacted-stays-in-pool', c, c.loc(rp[0][0]) if rp else c.loc(bb), 'only impacted nodes are scheduled for removal from the pool (un-impacted nodes are carried to later layers)',
               'a node the variable does not impact can be removed from the pool (it would be lost instead of skipping the layer)')
     rm = [(c2, b2, t2) for c2 in unit for (b2, t2) in c2.calls_to('remove') if self_field(c2.origin.operand(t2['args'][0], c2.term_point(b2)), 'pool')]
-    good = len(rm) == 1 and rm[0][0].kind == 'closure'
-    if good:
+    good = len(rm) == 1
+    if good and rm[0][0].kind == 'closure':
         site = None
         for (b2, t2) in mv.calls_to('for_each'):
             aa = [mv.origin.operand(x, mv.term_point(b2)) for x in t2['args']]
             if isinstance(aa[1], tuple) and aa[1][0] == 'closure' and aa[1][1] == rm[0][0].name:
                 site = aa[0]
         good = site is not None and lst is not None and M.contains(site, lambda x: x == lst) and M.contains(site, lambda x: M.is_call(x, 'drain'))
+    elif good:
+        # `for state in to_remove { self.pool.remove(..) }`: the removed key comes from iterating that very list
+        (c2_, b2_, t2_) = rm[0]
+        key = c2_.origin.operand(t2_['args'][1], c2_.term_point(b2_))
+        good = lst is not None and M.contains(key, lambda x: M.is_call(x, 'Iterator::next')) and M.contains(key, lambda x: x == lst)
     ctx.check(good, 'R15.1', 'pool-removal-list', mv, mv.loc(0), 'the pool loses exactly the states recorded on the impacted branch', 'pool.remove is not driven by the list filled on the impacted branch')
     # the negative branch has no effect
     falses = [(b2, i) for (b2, i, s) in c.assigns(lambda s: s['place']['l'] == 0 and not s['place']['p'] and s['rv']['k'] == 'use' and s['rv']['op'].get('const', {}).get('bool') is False)]
@@ -1533,9 +1560,13 @@ def r_pooled_layers(ctx):
     dw = [(pt, d, v) for (pt, d, v, s) in writes(c) if node_field(d, 'depth') is not None]
     good = bool(dw) and all(node_field(d, 'depth') == idx and depth_counter(tag, v) for (pt, d, v) in dw)
     if good:
-        for p in trues:
-            r = c.reach([(0, 0)], avoid=[pt for (pt, d, v) in dw])
-            good = good and p not in r
+        # every path that may answer true (node expanded) has refreshed the depth
+        for (atoms_, rt_, blocks_, end_) in bool_fn_paths(c):
+            if M.is_const(rt_, False):
+                continue
+            may_true = M.is_const(rt_, True) or any(a_[0] == 'T' and a_[1] == imt for a_ in atoms_)
+            if may_true and not any(pt_[0] in blocks_ for (pt_, d_, v_) in dw):
+                good = False
     ctx.check(good, 'R15.2', 'depth-when-expanded', c, c.loc(*dw[0][0]) if dw else c.loc(bb), 'a node leaving the pool gets depth := layer counter (it may have been created many layers earlier)',
               'a node expanded from the pool keeps the depth it was created with (stale after a long arc): sub-problems handed out carry a wrong depth')
     fl = ctx.body(adt, '_finalize_layers')
